@@ -350,7 +350,6 @@ class SourceHandler:
         if self._params.remote_cfg is None:
             raise NoRemoteEntityCfgFound(entity_id=request.destination_id)
         self._params.dest_id = request.destination_id
-        self.states._num_packets_ready = 0
         self.states.state = CfdpState.BUSY
         self._setup_transmission_params()
         if self._params.transmission_mode == TransmissionMode.UNACKNOWLEDGED:
@@ -505,6 +504,7 @@ class SourceHandler:
         self.states.state = CfdpState.IDLE
         if clear_packet_queue:
             self._pdus_to_be_sent.clear()
+            self.states._num_packets_ready = 0
         self._params.reset()
 
     def reset(self) -> None:
